@@ -30,6 +30,10 @@ func (r *Receiver) VerifIdle() bool {
 		if !ok {
 			continue
 		}
+		if inst == r.ownInstance {
+			// own snapshots are only notified during start-up
+			ni = r.lastNotifiedByInstance[inst]
+		}
 		if d.last.FullName != ni.FullName {
 			return false
 		}
